@@ -574,8 +574,11 @@ const _: () = {
             if self.section.is_empty() {
                 return Ok(None)
             }
-            if !self.first && self.section.first() == Some(&b',') {
-                return Err(serde::de::Error::custom("missing ,"))
+            if !self.first {
+                if self.section.first() != Some(&b',') {
+                    return Err(serde::de::Error::custom("missing ,"))
+                }
+                self.section = &self.section[1..];
             }
             self.first = false;
 
